@@ -167,7 +167,7 @@ def d45(ctx, rep, prog):
     pp = [k for k in prog.find('parallel_parse', crate='typeshare#bin') if prog.bodies[k]['kind'] == 'fn']
     if len(pp) != 1:
         raise core.Incomplete('parallel_parse not found')
-    kids = [pp[0]] + list(prog.children.get(pp[0], []))
+    kids = prog.region(pp, stop=('parse_dir_entry',))   # parallel_parse, its closures and the local helpers they call
     folds = [(k, c) for k in kids for c in prog.bodies[k]['calls'] if c['callee'].endswith('AddAssign>::add_assign') or 'add_assign' in c['callee']]
     ok = bool(folds) and any('BTreeMap' in ' '.join(prog.bodies[k]['locals'].values()) for k, _ in folds)
     rep.check(ok, 'D4', 'collector:ordered-map-fold', 'per-file results folded with += into a BTreeMap keyed by crate', 'the collector no longer folds per-file results with `+=` into an ordered map keyed by crate name', {'file': 'cli/src/parse.rs', 'line': prog.bodies[pp[0]]['line']})
@@ -190,6 +190,12 @@ def d45(ctx, rep, prog):
             its = [c for c in b['calls'] if c['callee'].endswith('IntoIterator>::into_iter') and prog.dominates(b, c['bb'], src['bb'])]
             sorts = [c for c in b['calls'] if re.search(r'slice::<impl \[T\]>::sort(_unstable)?(_by|_by_key|_by_cached_key)?$', c['callee'])
                      and 'ParsedData' in ' '.join(c.get('arg_tys') or []) and its and all(prog.dominates(b, c['bb'], i['bb']) for i in its[-1:])]
+            if not sorts:
+                # the buffer may have been sorted by the caller before it was handed to this helper
+                for ck, cc in prog.callers_in(kids, k):
+                    cb = prog.bodies[ck]
+                    sorts += [c for c in cb['calls'] if re.search(r'slice::<impl \[T\]>::sort(_unstable)?(_by|_by_key|_by_cached_key)?$', c['callee'])
+                              and 'ParsedData' in ' '.join(c.get('arg_tys') or []) and prog.dominates(cb, c['bb'], cc['bb'])]
             rep.check(bool(sorts), 'D4', 'collector:merge-order', f"per-file results are buffered and sorted (`{sorts[0]['snippet'][:60] if sorts else ''}`) before the fold", 'the collector buffers the per-file results but folds them without sorting the buffer first: the merge order is still the channel arrival order, and the later stable sort by Rust name keeps it for same-named items', site)
         elif re.search(r'btree', ty):
             rep.ok('D4', 'collector:merge-order', f'fold iterates an ordered collection (`{ty[:60]}`)', site)
@@ -199,7 +205,7 @@ def d45(ctx, rep, prog):
     pd = ctx.item('struct', 'ParsedData')
     ra = ctx.fn('reconcile_aliases', file='reconcile.rs')
     aa = ctx.fn('ParsedData::add_assign', file='parser.rs')
-    appended = [f['name'] for f in pd['fields'] if f['ty'].startswith('Vec<') and any(c.get('f') == 'append' and vt.show(c.get('recv')).endswith('self.' + f['name']) for c in aa['calls'])]
+    appended = [f['name'] for f in pd['fields'] if f['ty'].startswith('Vec<') and any(c.get('f') in ('append', 'extend', 'extend_from_slice') and vt.show(c.get('recv')).endswith('self.' + f['name']) for c in aa['calls'])]
     rep.floor('D5', 'vectors appended by AddAssign', len(appended), 4)
     for v in appended:
         site = {'file': ra['file'], 'line': ra['line']}
